@@ -26,7 +26,10 @@ Crafted == { Obj(<<A, B>>, <<Arr(<<IntV(1), IntV(2), IntV(3)>>), Obj(<<A>>, <<Ar
              Obj(<<E, TLD, SL>>, <<IntV(0), Arr(<<Bool(FALSE)>>), Obj(<<E>>, <<Null>>)>>),
              Obj(<<N0, N1>>, <<Arr(<<IntV(0), IntV(1)>>), Str(A)>>),
              Arr(<<Bool(TRUE), IntV(1), Num(3), Str(N1)>>),
-             Obj(<<A, M0, N0>>, <<Obj(<<X>>, <<Null>>), IntV(1), Arr(<<Obj(<<X, Y>>, <<Null, IntV(1)>>)>>)>>) }
+             Obj(<<A, M0, N0>>, <<Obj(<<X>>, <<Null>>), IntV(1), Arr(<<Obj(<<X, Y>>, <<Null, IntV(1)>>)>>)>>),
+             \* members named with the pointer escape characters themselves, and a member whose name begins with a sibling's
+             Obj(<<<<126, 49>>, SL, <<126, 48, 49>>>>, <<IntV(1), Arr(<<IntV(2)>>), IntV(3)>>),
+             Obj(<<A, <<97, 98>>>>, <<IntV(1), Obj(<<A>>, <<Arr(<<>>)>>)>>) }
 DocsSingle == D1 \cup D2 \cup Crafted
 DocsSeq == { Obj(<<A, B>>, <<Arr(<<IntV(1), IntV(2)>>), Obj(<<A>>, <<Arr(<<>>)>>)>>),
              Arr(<<Arr(<<IntV(1)>>), Obj(<<N1>>, <<IntV(1)>>)>>),
